@@ -156,6 +156,16 @@ def d2(cx: Cx, ob: Ob) -> None:
             for x in subterms(t):
                 if is_const(x) and isinstance(x[1], str) and x[1].startswith("@"):
                     reader_consts.add(x[1])
+                # a module-level table the reader consults (rules with lambdas): the keywords written in it
+                if op(x) == "gconst":
+                    import ast as _ast
+
+                    mod_ = cx.model.modules.get(x[1])
+                    node_ = mod_.constants.get(x[2]) if mod_ is not None else None
+                    if node_ is not None:
+                        for n_ in _ast.walk(node_):
+                            if isinstance(n_, _ast.Constant) and isinstance(n_.value, str) and n_.value.startswith("@"):
+                                reader_consts.add(n_.value)
                 # helpers the reader delegates to (e.g. a generator over the context items)
                 if op(x) == "func" and x[1] in cx.model.functions and x[1] not in done and len(done) < 12 and not x[1].endswith("._prepare"):
                     done.add(x[1])
